@@ -7,14 +7,14 @@ def plan(tier, seed):
     spec = [("welford", 2, None), ("welford", 3, 2), ("welford_first", 3, None), ("scale_norm", 2, 1), ("scale_norm", 3, 4), ("scale_scale", 2, 3),
             ("scale_int", 3, None), ("scale_none", 3, None), ("ema", 2, None), ("warmup", 2, None)]
     if tier == "thorough":
-        spec += [("welford", 3, None), ("welford", 4, 1), ("welford", 4, 7), ("welford_first", 4, None), ("scale_scale", 3, 1), ("scale_norm", 4, 2), ("ema", 3, None)]
+        spec += [("welford", 3, 5), ("welford", 4, 1), ("welford", 4, 7), ("welford_first", 4, None), ("scale_scale", 3, 1), ("scale_norm", 4, 2), ("ema", 3, None)]
     for case, m, n0 in spec:
         jobs.append({"id": f"C20:{case} m={m} n0={n0}", "module": "vf.training", "func": "stats_job", "params": dict(case=case, m=m, n0=n0)})
     # two-dimensional batches ([batch, n_start] advantages of multi-start training): every VALUE counts
     for case, m, n0 in [("welford", 2, 3), ("welford_first", 2, None)]:
         jobs.append({"id": f"C20:{case} m={m}x2 n0={n0}", "module": "vf.training", "func": "stats_job", "params": dict(case=case, m=m, n0=n0, cols=2)})
     return {"jobs": jobs, "level": "model_checking",
-            "bounds": "one inductive step from an ARBITRARY history summarised by (n, S1, S2) with n symbolic or concrete; absorbed batch of m<=4 symbolic values; EMA 3 steps with symbolic beta; warm-up n_epochs<=3",
+            "bounds": "one inductive step from an ARBITRARY history summarised by (n, S1, S2) with n symbolic (batches of m=2 values; m=3 with a symbolic n does not finish within the per-query timeout and is not claimed) or concrete (m<=4); EMA 3 steps with symbolic beta; warm-up n_epochs<=3",
             "outside": "total count 1 (sample standard deviation undefined); float32 rounding of the accumulators"}
 
 
